@@ -576,8 +576,7 @@ def run_impl(n, schedule, cfg):
             if tmp:
                 gate.base = str(tmp)
             if cfg.get("seg"):
-                k = int(cfg["seg"])
-                net.default_segmenter = lambda data: [data[x:x + k] for x in range(0, len(data), k)]
+                net.default_segmenter = lambda data, seg=int(cfg["seg"]): [data[x:x + seg] for x in range(0, len(data), seg)]
             await server.start("127.0.0.1", ftpsim.PORT)
             ss = []
             for i in range(n):
